@@ -15,6 +15,11 @@ def run(ck):
     for r in (0, 1, 2):
         ck.mc("MC_Grid", "MC_Grid_r%d.cfg" % r, what="reference graph of resolution %d (degree, symmetry, closure, count)" % r,
               workers=vlib.NCPU, xmx="8g", expect_distinct=NCELLS[r])
+    for r in ((0, 1, 2) if q else (0, 1, 2, 3)):
+        ck.mc("MC_LocalIJ", "MC_LocalIJ_r%d.cfg" % r, workers=vlib.NCPU, xmx="12g", timeout=3400, expect_distinct=NCELLS[r],
+              what="cellToLocalIjk / localIjkToCell transcribed (five pentagon tables frozen): from every origin of resolution %d to "
+                   "every target within %d steps: a successful distance is the BFS distance, the chart is invertible where defined, "
+                   "symmetric when both directions succeed, 0 to itself, 1 to every neighbour" % (r, 3 if r >= 2 else 4))
     drv = vlib.build_driver("drv_dist", "dbg")
     t0 = os.path.join(ck.tdir, "all0.ndjson")
     drv_run(ck, drv, ["all", 0, 0, ck.seed], t0)
@@ -35,5 +40,13 @@ def run(ck):
                   "at r=1..5(8) (one BFS per origin); pentagon disks / seam / random origins at r=0..15 against their k<=4(6) disks in both directions, "
                   "cellToLocalIj<->localIjToCell round trips, IJ boxes, coordinates up to +-2^31, unit-step chart clause, "
                   "E_RES_MISMATCH pairs")
+    t4 = t3 + ".localij"
+    with open(t4, "w") as f:
+        for ln in open(t3):
+            if '"e":"localIj"' in ln or '"e":"ijToCell"' in ln:
+                f.write(ln)
+    ck.trace("localij-conformance", "Trace_LocalIJ", "Trace.cfg", t4, nchunks=16, balance=True, drift=True,
+             what="the recorded cellToLocalIj / localIjToCell calls against the transcription H3LocalIJ: same outcome class, same "
+                  "coordinates, same cell")
     ck.ev.assumptions += ["TLC 1.8 / JVM", "H3Grid.tla transcription + frozen tables", "ndjson encodings",
                           "any chart satisfying the axioms is accepted (the API promises no particular coordinates)"]
